@@ -85,6 +85,9 @@ package keyid
 //@   ensures err == nil ==> hasRequired(kidStr)
 //@   loop 1:
 //@     invariant forall(j, 0 <= j && j <= rangeindex, jsonHasKey(kidStr, requiredKeys[j]))
+//@     invariant len(requiredKeys) == 11 && requiredKeys[0] == "prins" && requiredKeys[1] == "transID" && requiredKeys[2] == "reqUser" &&
+//@       requiredKeys[3] == "reqIP" && requiredKeys[4] == "reqHost" && requiredKeys[5] == "isFirefighter" && requiredKeys[6] == "isHWKey" &&
+//@       requiredKeys[7] == "isHeadless" && requiredKeys[8] == "isNonce" && requiredKeys[9] == "touchPolicy" && requiredKeys[10] == "ver"
 
 //@ # --- pinned content of the package tables (C05: required fields per version, checker per version)
 //@ table requiredKeysByVersion: forall(v, 0 <= v && v < 65536, (v in dom(requiredKeysByVersion)) <==> v == 1) &&
